@@ -347,7 +347,8 @@ async def step(
     sim.is_in_step = False
 
     if next_step_time is not None:
-        if not isinstance(next_step_time, int):
+        # (A bool is an instance of int, but it is not a time.)
+        if not isinstance(next_step_time, int) or isinstance(next_step_time, bool):
             raise SimulationError(
                 f'the next step time returned by the step method must be of type int, '
                 f'but is of type {type(next_step_time)} for simulator "{sim.sid}"'
